@@ -24,6 +24,10 @@ theorem fasta_rewrap_invariant (w₁ w₂ : Nat) (h₁ : 0 < w₁) (h₂ : 0 < w
     parseLines (renderLines w₁ rs) = parseLines (renderLines w₂ rs) := by
   rw [parseLines_renderLines w₁ h₁ rs h, parseLines_renderLines w₂ h₂ rs h]
 
+/-- file level (characters, not lines): the text the FASTA writer produces, read back, gives the records -/
+theorem fasta_file_read_write (w : Nat) (hw : 0 < w) (rs : List Rec) (h : ∀ r ∈ rs, r.WF) (hd : ∀ r ∈ rs, '\n' ∉ r.desc) :
+    parseFasta (renderFasta w rs) = rs := parseFasta_renderFasta w hw rs h hd
+
 /-- file level: cutting the written text into lines gives the written lines back -/
 theorem fasta_file_lines (ls : List Line) (h : ∀ l ∈ ls, '\n' ∉ l) : fileLines (unlines ls) = ls :=
   fileLines_unlines ls h
